@@ -219,4 +219,27 @@ theorem C12_no_jitter_saturates (c : Cfg) (a jn jd : Nat) (hj : c.jitter = .none
 
 example : delay presetCritical 1 0 1 = 1 ∧ delay presetCritical 30 0 1 = 60 := by decide
 
+/-! ## decisions carry bounded delays -/
+
+/-- Every continue decision of the wait strategy carries a delay between 1 s and the configured maximum
+(or 1 s when the maximum is below 1 s), for every jitter draw in [0, 1). -/
+theorem C13_wait_delay_bounds (c : Cfg) (cont : Bool) (a jn jd d : Nat) (hr : 0 < c.rateDen) (hj : jn < jd)
+    (h : waitDecision c cont a jn jd = some d) : 1 ≤ d ∧ d ≤ max 1 c.maxDelay := by
+  obtain ⟨h1, h2⟩ := (C13_wait_decision c cont a jn jd).2 d h
+  exact ⟨h1, h2 ▸ C12_delay_le_max c a jn jd hr hj⟩
+
+/-- The same for a granted retry. -/
+theorem C12_retry_delay_bounds (c : Cfg) (r : Bool) (a jn jd d : Nat) (hr : 0 < c.rateDen) (hj : jn < jd)
+    (h : retryDecision c r a jn jd = some d) : 1 ≤ d ∧ d ≤ max 1 c.maxDelay ∧ a < c.maxAttempts ∧ r = true := by
+  unfold retryDecision at h
+  split at h
+  · cases h
+  · split at h
+    · cases h
+    · injection h with h
+      subst h
+      exact ⟨C12_delay_ge_one c a jn jd, C12_delay_le_max c a jn jd hr hj, by omega, by simp_all⟩
+
+example : retryDecision presetDefault true 3 1 2 = some 10 ∧ waitDecision presetCritical true 2 0 1 = some 2 := by decide
+
 end C12S
